@@ -222,9 +222,11 @@ pub fn lzw_encode_with(data: &[u8], early: u32, reset_at: u32, initial_clear: bo
     w.finish()
 }
 pub fn lzw_encode(data: &[u8], early: u32, s: &mut Src) -> Vec<u8> {
-    let reset_at = match s.alt(6, &["lzw_reset_4094", "lzw_reset_early", "lzw_full_table"]) { 0 => 4094, 1 => 300 + s.draw(3000), _ => 4096 };
-    let initial_clear = s.alt(1, &["lzw_initial_clear", "lzw_no_initial_clear"]) == 0;
-    lzw_encode_with(data, early, reset_at, initial_clear, &[])
+    // Domain: the encoder starts with a clear-table code (ISO 32000-1 7.4.4.2 requires it) and resets
+    // no later than when its next free code is 4094 (what libtiff/Adobe-style encoders do; the behaviour
+    // at 4095/4096 is implementation-defined folklore and deliberately left out).
+    let reset_at = match s.alt(6, &["lzw_reset_4094", "lzw_reset_early"]) { 0 => 4094, _ => 300 + s.draw(3000) };
+    lzw_encode_with(data, early, reset_at, true, &[])
 }
 pub fn lzw_decode(data: &[u8], early: u32) -> Result<Vec<u8>, String> {
     let mut r = MsbReader::new(data);
